@@ -47,6 +47,18 @@ CLAIMED = {
             "Proof: for every SPS with ue-range sizes, pixel_dimensions of the model returns the standard's cropped frame size exactly when every product fits 32 bits and the crop lies within the picture, an error otherwise, never a panic; fps is the exact rational time_scale/(2*num_units_in_tick); the +1 / saturating helpers never overflow on accepted SPS; all 256 profile bytes and 65536 (flags, level) pairs of the implementation map back to their idc (theorems about the dumped tables). Tied to the crate on extreme-value SPS; fps compared as the correctly rounded f64.",
             "Trusted: Coq kernel; f64 division and rfc6381-codec's Display are modelled, not verified.",
             "DESIGN.md 5 C13"),
+    "C09": ("Coq proof (index-bound invariant of the construction walk; list lemmas for built records) + differential execution on built, truncated and mutated records",
+            "Proof: records built from <= 31 SPS and <= 255 PPS NALs of <= 65535 bytes (any reserved bits, any trailing bytes) are accepted and both iterators yield exactly the NAL byte strings in order; construction never panics; once construction has succeeded on any bytes whatsoever both iterators return (every yielded NAL non-empty) and create_context cannot panic (it folds the model SPS/PPS parsers, total by C16's proofs); every truncation below the end of the declared sets is refused with NotEnoughData; a version other than 1 is refused. Tied to avcc.rs by generated/truncated/mutated records incl. zero-length entries.",
+            "Trusted: Coq kernel; slice indexing modelled as index-checked nth (out of bounds = PANIC).",
+            "DESIGN.md 5 C09"),
+    "C10": ("Coq proof (induction over message lists; arithmetic of the 0xFF size coding) + differential execution over message lists, truncations, chunked and escaped NALs",
+            "Proof: for every non-empty list of messages with 32-bit types and sizes the model reader returns exactly those messages (type 128 in any position) then the end on every further call; after the end or any error it is done forever; a returned payload always lies within the buffered data; next() never aborts. Tied to SeiReader::next through contiguous RBSP, escaped chunked NALs, incomplete NALs, every truncation and repeated calls after the end.",
+            "Trusted: Coq kernel; the byte source abstracts the RBSP reader by what it delivers before its first error (C02 model).",
+            "DESIGN.md 5 C10"),
+    "C03": ("Coq totality theorems (no PANIC / no FUEL outcome) for the model entry points under contexts reachable by accepted inputs + differential execution in debug (overflow checks, debug assertions) and release builds with a counting allocator",
+            "Proof: bit reader, SPS, PPS (any accepted-SPS context incl. 2^32-macroblock sizes), slice header (fuelled loops never run out), SEI reader and payload parsers, AVCC construction/iterators/context creation, SPS helpers and the chunk reader never abort in the model; SEI payloads handed out lie within the buffered data. Partial: Annex B push/reset and the accumulator are total functions of the model by construction; ByteReader totality is checked by correspondence only; wall-clock linearity and real allocator behaviour are observed (size doubling to 256 KiB / 1 MiB, largest single request <= 300 x input + 1 MiB, dev = release answers), not proved.",
+            "Trusted: Coq kernel; std, memchr, bitstream-io, rfc6381-codec, hex-slice, log; documented preconditions (consume <= buffer, non-empty RefNal chunks, matching payload_type).",
+            "DESIGN.md 5 C03"),
 }
 
 PENDING_REASON = "not claimed yet in this revision: model and theorems for this layer are still being built (see DESIGN.md section 9 for the order of work)"
